@@ -21,6 +21,7 @@ func init() {
 }
 
 func runC36(c *core.Ctx) {
+	checkPermittedSetFromNodeKeys(c, "C36.permitted-from-node-keys")
 	checkRelayerListLoops(c)
 	accessorPairs(c, "C36.accessor-keys", 4, pkRM)
 	checkVoteTagsDistinct(c, "C36.ledger-tag")
